@@ -11,6 +11,7 @@ import itertools
 
 from mc import alpha
 from mc.env import guard
+from mc.state import seq
 from tracklib.core.track import Track
 from tracklib.core.obs import Obs
 from tracklib.core.obs_coords import ENUCoords
@@ -40,6 +41,7 @@ N_VARIANTS = 4
 NAN = float("nan")
 
 OBLIGATIONS = {
+    "call_after_a_refused_call": "segmentation() judged on a track on which it had first been asked for a feature the track lacks and given a threshold list that is too short",
     "through_collection_wrapper": "the same segmentation was also requested through TrackCollection.segmentation (positional and keyword mode)",
     "pieces_segmented_again": "every piece of a split was segmented again into a marker name that did not exist yet",
     "marker_on_first": "a marker on the first fix",
@@ -233,7 +235,8 @@ def _seg_track(variant, data, n):
 
 def _read_marker(t, n, out="out"):
     vals = t.getAnalyticalFeature(out)
-    if not isinstance(vals, list) or len(vals) != n:
+    vals = seq(vals)
+    if vals is None or len(vals) != n:
         raise TypeError("marker column unreadable")
     return [_num(v) for v in vals]
 
@@ -338,6 +341,16 @@ def check_seg(variant, nf, n, flat, thr, mode, scalar, ctx):
         t, names = _seg_track(variant, data, n)
         judge_seg("TrackCollection.segmentation/", t, names, data, thr, mode, scalar, dict(case, via=via), ctx, via=via)
     ctx.oblige("through_collection_wrapper")
+    # ... and on a track on which segmentation() was first asked things it refuses: a tested feature the track does not carry
+    # (after the known ones, with lower thresholds; then alone, in the other mode), a threshold list that is too short
+    t, names = _seg_track(variant, data, n)
+    other = "OR" if mode == "AND" else "AND"
+    guard(segmentation, t, list(names) + ["no_such_feature"], "out", [v - 1 for v in thr] + [0.0], MODES[mode])
+    guard(segmentation, t, ["no_such_feature"] + list(names), "out", [0.0] + list(thr), MODES[other])
+    if nf >= 2:
+        guard(segmentation, t, list(names), "out", list(thr)[:-1], MODES[other])
+    judge_seg("segmentation/after-a-refused-call/", t, names, data, thr, mode, scalar, dict(case, after_refused=True), ctx)
+    ctx.oblige("call_after_a_refused_call")
 
 
 def check_seq(variant, n, flat, thr_a, thr_b, mode, ctx):
